@@ -376,8 +376,16 @@ class IntroVisitor(ast.NodeVisitor):
         function_body_hash = dds_hash(self._body_lines[:last_line])
         # The list of all the previous interactions.
         # This enforces the concept that the current call depends on previous calls.
+        # The paths loaded so far are part of what precedes the call: a loaded value may be handed to it.
+        # (One entry per path: the combination is an xor, two equal entries would cancel out.)
+        loaded_so_far: Dict[DDSPath, PyHash] = {}
+        for loaded_path in self.load_paths:
+            loaded_sig = self._gctx.resolved_references.get(loaded_path)
+            if loaded_sig is not None:
+                loaded_so_far[loaded_path] = loaded_sig
         function_inters_sig: Optional[PyHash] = dds_hash_commut(
             _fis_to_siglist(self.inters)
+            + [(HK(f"dep_{p_}"), s_) for (p_, s_) in loaded_so_far.items()]
         )
         # Check the call for dds calls or sub_calls.
         fi_or_p = InspectFunction.inspect_call(
